@@ -264,15 +264,19 @@ def run_scenario(name, log, outdir):
                 f.write("syscall trace of recovery (call, file):\n" + "\n".join("%s %s" % e for e in ev)[-4000:])
                 f.write("\nverdict: %s\n" % ("VIOLATED: the WAL was truncated before the last hash-table page was rewritten (a crash in between loses the redo data)" if violated else "holds / not observed"))
             return violated, tr
+        why = "no fsync(ht) between the last pwrite(ht) and ftruncate(wal)"
         if writes and truncs:
             last_w = writes[-1]
             t = [i for i in truncs if i > last_w]
             if t:
                 violated = not any(c in ("fsync", "fdatasync") and f == "ht" for c, f in ev[last_w:t[0]])
+                if not violated and not any(c in ("fsync", "fdatasync") and f == "wal" for c, f in ev[t[-1]:]):
+                    violated = True
+                    why = "the WAL truncation of recovery is not fsynced (a later power loss can resurrect the old WAL)"
         with open(tr, "w") as f:
             f.write("scenario %s: crash after the meta switch-over, then reopen under strace\n" % name)
             f.write("syscall trace of recovery (file, call):\n" + "\n".join("%s %s" % e for e in ev if e[0] != "pwrite64" or True)[-4000:])
-            f.write("\nverdict: %s\n" % ("VIOLATED: no fsync(ht) between the last pwrite(ht) and ftruncate(wal)" if violated else "holds / not observed"))
+            f.write("\nverdict: %s\n" % ("VIOLATED: " + why if violated else "holds / not observed"))
         return violated, tr
     if name in ("c04_seglog_dir_fsync", "c17_rollback_prune_order"):
         # two drivers: two ordinary commits (first segment), and five commits whose deltas exceed a segment
@@ -345,6 +349,49 @@ def run_scenario(name, log, outdir):
         os.makedirs(wd, exist_ok=True)
         violated, problems = faultsweep.run(b, wd, tr, only_files=r"rollback" if name.endswith("rollback") else None)
         return violated, tr
+    if name == "c04_create_durable":
+        st = os.path.join(outdir, name + ".strace")
+        subprocess.run(["strace", "-f", "-y", "-e", "trace=openat,fsync,fdatasync", "-o", st, b, "c20_fresh_and_reopen", d],
+                       stdout=subprocess.PIPE, stderr=subprocess.STDOUT, text=True)
+        if not os.path.exists(st):
+            return None, tr
+        dbdir = os.path.abspath(d)
+        ev, created, synced, problems = [], [], set(), []
+        dir_synced_after_last_create = False
+        done = False
+        for ln in strace_lines(st):
+            if done:
+                break
+            m = re.search(r"openat\([^,]*, \"([^\"]*)\", ([A-Z_|]+)", ln)
+            if m and os.path.dirname(os.path.abspath(m.group(1))) == dbdir:
+                fn = os.path.basename(m.group(1))
+                if "O_CREAT" in m.group(2) and fn != ".lock" and not fn.startswith("rollback"):
+                    created.append(fn)
+                    dir_synced_after_last_create = False
+                    ev.append("create " + fn)
+                elif created and fn == "meta" and "O_CREAT" not in m.group(2):
+                    done = True   # creation finished: the store is being opened
+                continue
+            m = re.search(r"(fsync|fdatasync)\(\d+<([^>]*)>", ln)
+            if m and created:
+                pth = os.path.abspath(m.group(2))
+                if pth == dbdir:
+                    dir_synced_after_last_create = True
+                    ev.append("sync <dir>")
+                elif os.path.dirname(pth) == dbdir:
+                    synced.add(os.path.basename(pth))
+                    ev.append("sync " + os.path.basename(pth))
+        for fn in created:
+            if fn not in synced:
+                problems.append("%s created but not fsynced during creation" % fn)
+        if created and not dir_synced_after_last_create:
+            problems.append("the directory is not fsynced after the last file was created")
+        with open(tr, "w") as f:
+            f.write("scenario %s: creation of a fresh database under strace\n" % name)
+            f.write("\n".join(ev) + "\nproblems: %s\n" % (problems or "none"))
+        if not created:
+            return None, tr
+        return bool(problems), tr
     if name == "c20_lock_order":
         st = os.path.join(outdir, name + ".strace")
         subprocess.run(["strace", "-f", "-y", "-e", "trace=openat,flock,unlink,unlinkat,rename,renameat,renameat2", "-o", st, b, "c20_fresh_and_reopen", d],
